@@ -388,6 +388,17 @@ int fiber_sleep(uint32_t seconds, uint32_t useconds) {
 
   fiber_spinlock_lock(&sleep_spinlock);
 
+#if defined(__linux__)
+  // timer_trigger_count only advances when some thread polls the timer. take
+  // over the ticks nobody has read yet (all threads may have been busy),
+  // otherwise this sleep is cut short by that many ticks
+  uint64_t unread_ticks = 0;
+  if (fibershim_read(timer_fd, &unread_ticks, sizeof(unread_ticks)) ==
+      sizeof(unread_ticks)) {
+    timer_trigger_count += unread_ticks;
+  }
+#endif
+
   const uint64_t wake_time = timer_trigger_count + sleep_ms;
   wake_info.wake_time = wake_time;
   waiter_insert(&sleepers, &wake_info);
